@@ -128,7 +128,7 @@ def bystander(live, op, step, out, stats, log, prefix):
     x, t = BYSTANDER_POINT
     for nm in op["names"]:
         try:
-            got = np.asarray(evaluate(live.bystander, nm, x, t), float)
+            got = core.num_array(evaluate(live.bystander, nm, x, t))
         except core.RunTimeout:
             raise
         except Exception as e:
@@ -175,7 +175,7 @@ def sibling(live, op, step, out, stats, log, prefix, rng):
         x, t = op["x"], op["t"]
         if all(v is not None and not isinstance(v, tuple) for v in th):
             for nm in ["ode"] + (["eventRateVector"] if ref2.m else []):
-                g = np.asarray(evaluate(ode2, nm, x, t), float)
+                g = core.num_array(evaluate(ode2, nm, x, t))
                 w = ref_value(ref2, nm, x, t, th)
                 msg = cmp_arrays(g, w.reshape(expected_shape(ref2, nm)), 1e-9, 1e-11, collapse_ok=True)
                 log.append(["sib", step, nm, core.digest(g.tolist(), 10)])
@@ -253,7 +253,7 @@ def check_eval(live, op, step, out, stats, log, prefix, against="ref", tag="eval
         live.interleaves += 1
         for nm in names:
             try:
-                fresh_first[nm] = np.asarray(evaluate(fresh, nm, x, t), float)
+                fresh_first[nm] = core.num_array(evaluate(fresh, nm, x, t))
             except core.RunTimeout:
                 raise
             except Exception:
